@@ -254,6 +254,25 @@ class Scen:
                 self.n += 1; t = 't%d' % self.n
                 self.decl.append('let %s = ipv4::tcp::flow(%s:%d, %s:%d%s);' % (t, ip(a), other, ip(b), port, self.rawarg()))
                 self.emit('%s.client_message("x")' % t, [dict(base, src=a, dst=b, proto=6, l4='tcp'), dict(base, src=b, dst=a, proto=6, l4='tcp')])
+    def pieces(self):
+        """payloads handed over as SEVERAL arguments of odd and even lengths, small and beyond one segment size in total (a builder
+        that sums or copies piece by piece has to carry the byte parity across pieces)"""
+        r = self.r
+        base = dict(id=0, ttl=64, off=0, evil=False, df=False, mf=False, eth='ip')
+        a, b = addr(r), addr(r)
+        self.n += 1; t = 't%d' % self.n; u = 'u%d' % self.n
+        self.decl.append('let %s = ipv4::tcp::flow(%s:%d, %s:%d%s);' % (t, ip(a), 1025, ip(b), 80, self.rawarg()))
+        self.decl.append('let %s = ipv4::udp::flow(%s:%d, %s:%d%s);' % (u, ip(a), 1025, ip(b), 53, self.rawarg()))
+        c2s = dict(src=a, dst=b); s2c = dict(src=b, dst=a)
+        T = dict(base, proto=6, l4='tcp'); U = dict(base, proto=17, l4=('udp', True))
+        for shape in ([3, 1500, 4], [1, 2, 1500], [1, 1, 1], [3, 3, 3], [1459, 1, 1], [1, 1460, 1], [1461, 2, 1], [7, 1500, 1, 9, 1], [2, 1500, 4], [1, 700, 761, 3], [5, 0, 1500, 0, 1], [1501, 1], [1]):
+            parts = [r.bytes(n) for n in shape]
+            args = ', '.join(lit(p_) for p_ in parts)
+            who = r.chance(1, 2)
+            self.emit('%s.%s_message(%s)' % (t, 'client' if who else 'server', args), [dict(T, **(c2s if who else s2c)), dict(T, **(s2c if who else c2s))])
+            self.emit('%s.%s_segment(%s)' % (t, 'client' if who else 'server', args), [dict(T, **(c2s if who else s2c))])
+            if sum(shape) <= 1472:
+                self.emit('%s.client_dgram(%s)' % (u, args), [dict(U, sport=1025, dport=53, plen=sum(shape), **c2s)])
     def drop_empty(self, stmt):
         """an empty payload may also be given by passing no payload argument at all"""
         if '.echo' in stmt or not self.r.chance(1, 2): return stmt
@@ -405,6 +424,7 @@ def build(r, raw, kinds=None, quick=True):
         else: s.tcp(96)
         del SWEEP[:]
     elif k == 'opt-grid': s.optgrid()
+    elif k == 'pieces': s.pieces()
     elif k == 'port-classes': s.portclasses()
     elif k == 'fan-out': s.fanout()
     elif k == 'non-emitting': s.nonemit()
